@@ -118,6 +118,8 @@ pub struct World {
     pub style: u64,
     /// allow the glob + named import of one crate in one file (P5 family)
     pub allow_glob_named: bool,
+    /// allow imports through a crate that merely re-exports the type (`use facade::Name;`)
+    pub allow_reexport: bool,
 }
 
 const PRIMS: [&str; 9] = ["String", "u32", "i32", "bool", "f64", "u8", "i16", "u16", "f32"];
@@ -145,6 +147,7 @@ pub struct GenOpts {
     pub generics: bool,
     pub decorators: bool,
     pub specials: bool,
+    pub reexports: bool,
 }
 
 impl Default for GenOpts {
@@ -161,6 +164,7 @@ impl Default for GenOpts {
             generics: true,
             decorators: true,
             specials: true,
+            reexports: false,
         }
     }
 }
@@ -366,7 +370,7 @@ pub fn gen_world(r: &mut Rng, o: &GenOpts) -> World {
         }
         items.push(it);
     }
-    World { crates, items, noise: r.chance(1, 2), style: r.next(), allow_glob_named: o.glob_named }
+    World { crates, items, noise: r.chance(1, 2), style: r.next(), allow_glob_named: o.glob_named, allow_reexport: o.reexports }
 }
 
 pub fn render_item(it: &GItem) -> String {
@@ -505,12 +509,21 @@ impl World {
                 for (oc, names) in &by_crate {
                     let cn = crate_name_of(&self.crates[*oc].dir);
                     let names: Vec<&String> = names.iter().collect();
-                    let style = fr.below(if self.allow_glob_named { 5 } else { 4 });
+                    let mut style = fr.below(if self.allow_glob_named { 5 } else { 4 });
+                    if self.allow_reexport && self.crates.len() > 2 && fr.chance(1, 3) {
+                        style = 9;
+                    }
                     let line = match style {
                         0 => names.iter().map(|n| format!("use {cn}::{n};\n")).collect::<String>(),
                         1 => format!("use {cn}::{{{}}};\n", names.iter().map(|s| s.as_str()).collect::<Vec<_>>().join(", ")),
                         2 => format!("use {cn}::*;\n"),
                         3 => names.iter().map(|n| format!("use {cn}::model::{n};\n")).collect::<String>(),
+                        9 => {
+                            // import through a third crate that only re-exports the type
+                            let facade = (0..self.crates.len()).find(|x| x != oc && *x != ci).unwrap_or(*oc);
+                            let fcn = crate_name_of(&self.crates[facade].dir);
+                            names.iter().map(|n| format!("use {fcn}::{n};\n")).collect::<String>()
+                        }
                         _ => format!("use {cn}::*;\nuse {cn}::{};\n", names[0]),
                     };
                     chunks.push(line);
